@@ -248,6 +248,13 @@ func (k *checker) handle(c mon.Case, res mon.Result) {
 		d.Event("context-deadline-hit", 1)
 	}
 	d.Distinct(o.Class + "|" + reached + "|" + o.Outcome)
+	if cd.Runaway != nil && (reached == "parse" || reached == "compile" || strings.Contains(o.Outcome, "parse-error")) {
+		// the shapes are meant to be valid programs: one that is rejected tests nothing
+		d.Event("runaway-shapes-rejected-by-parser-or-compiler", 1)
+		if os.Getenv("VERIF_C03_DEBUG") != "" {
+			fmt.Fprintf(os.Stderr, "rejected runaway shape %s: %s\n", o.Class, o.ErrText)
+		}
+	}
 	if cd.Family == "deep" && cd.Spec != nil {
 		k.okDeep[deepShapes[cd.Spec.A%len(deepShapes)].Name] = append(k.okDeep[deepShapes[cd.Spec.A%len(deepShapes)].Name], cd.Spec.B)
 	}
@@ -703,6 +710,7 @@ func (k *checker) confirmAndReport(isReplay bool) {
 	// limit; cases that already ran alone with the default limit are confirmed by a second identical run.
 	var reruns []mon.Case
 	repOf := map[string]suspect{}
+	confData := map[string]caseData{} // what the confirmation run executed (the replay file repeats exactly that)
 	for _, key := range order {
 		g := groups[key]
 		nrep := 2
@@ -713,6 +721,12 @@ func (k *checker) confirmAndReport(isReplay bool) {
 			s := g.list[i]
 			cd := s.Data
 			cd.FullStack = true
+			if s.Fatal.Kind == "stack-overflow" && cd.DeadlineMS < 25000 {
+				// filling the default 1 GB stack takes a few seconds: the evaluation's own deadline must not
+				// be what ends an unbounded native recursion in the confirmation run
+				cd.DeadlineMS = 25000
+			}
+			confData[s.Case.ID] = cd
 			id := fmt.Sprintf("confirm-%d-%s", len(reruns), s.Case.ID)
 			cd.Key = id
 			reruns = append(reruns, mon.NewCase(id, "confirm", cd))
@@ -833,7 +847,11 @@ func (k *checker) confirmAndReport(isReplay bool) {
 		src := sourceOf(&orig.Data)
 		detail := fmt.Sprintf("the process died while executing the input (stage %s), and died again when the input was run alone under the default stack limit\n%s\nexit: %s\nrepeating functions in the fatal stack: %s\ninnermost risor function: %s\nfamily: %s  class: %s%s\n--- source (%d bytes):\n%s\n--- stderr of the dead process:\n%s",
 			normStage(s.Stage, s.Fatal), s.Fatal.Line, s.Exit, strings.Join(shortAll(s.Fatal.Repeating), ", "), s.Fatal.Innermost, orig.Data.Family, orig.Data.Class, note, len(src), mon.Truncate(src, 1500), mon.Truncate(s.Stderr, 2500))
-		k.violation(sig, detail, replayOf(orig.Data))
+		rd, okc := confData[orig.Case.ID]
+		if !okc {
+			rd = orig.Data
+		}
+		k.violation(sig, detail, replayOf(rd))
 	}
 	k.flushViolations()
 	k.summary()
